@@ -59,3 +59,31 @@ Proof. split; [apply fresh_wf | apply existing_wf; reflexivity]. Qed.
 Example C03_ex_batches :
   run_batches (fun _ => None) [[{| w_id := 7; w_buf := [1] |}; {| w_id := 3; w_buf := [2] |}; {| w_id := 7; w_buf := [3] |}]] 7 = Some [3].
 Proof. reflexivity. Qed.
+
+(* ---- whole transactions (Model/TxCore.v: Page.doFlush, CheckpointWAL, the mapping update and automatic
+   checkpoint of Commit; the model is compared with the implementation's overwrite mapping after every commit).
+   For EVERY sequence of allocations, page writes, page / transaction flushes and manual checkpoints, every
+   overwrite-page limit and every well-formed committed state: after the commit every page reads - through the
+   new mapping, from the bytes the writer leaves when it executes the scheduled writes in schedule order - as
+   the last value the transaction wrote to it, every other page as before. ---- *)
+From VF Require Import TxCore TxCoreProofs.
+Theorem C03_committed_transaction_reads : forall (V : Type) (s : fstate V) (fresh0 : list Z),
+  WF V s fresh0 -> forall ops limit,
+  ops_ok V s fresh0 (tx_begin V fresh0) ops ->
+  let t := tx_run V s (tx_begin V fresh0) ops in
+  let t1 := flush_all V s t in
+  (forall id v, aget V (t_dirty V t1) id = Some v -> In id (t_flushed V t1)) ->
+  forall id, data_id V s fresh0 id ->
+  f_read V (tx_commit V s t limit) id =
+  match aget V (t_dirty V t) id with Some v => v | None => f_read V s id end.
+Proof. exact commit_reads. Qed.
+Print Assumptions C03_committed_transaction_reads.
+
+(* non-vacuity: page 5 lives in overwrite page 20, page 6 in 21; the transaction writes 5 and 7, checkpoints,
+   writes 6 (after the checkpoint copied it back: two writes to page 6 are queued), commits *)
+Example C03_ex_tx :
+  let s := {| f_disk := fun p => p * 100; f_wal := [(5, 20); (6, 21)] |} in
+  let ops := [OSet Z 5 1; OSet Z 7 2; OFlushAll Z; OCheckpoint Z; OSet Z 6 3] in
+  let s' := tx_commit Z s (tx_run Z s (tx_begin Z [30; 31; 32]) ops) 1000 in
+  map (f_read Z s') [5; 6; 7; 8] = [1; 3; 2; 800] /\ f_wal Z s' = [(7, 30)].
+Proof. vm_compute. split; reflexivity. Qed.
